@@ -306,7 +306,8 @@ example : ∃ ys, iterAll cxOps (makemap 0 {} : HMap (Nat × Bool) Nat) 1 = .ok 
 
 def cxOps : Ops (Nat × Bool) :=
   { hash := fun _ k => UInt64.ofNat k.1
-    nanHash := fun _ k x => UInt64.ofNat k.1 + x.toUInt64
+    nanHash := fun _ k xs => UInt64.ofNat k.1 + (xs.headD 0).toUInt64
+    nanCount := fun _ => 1
     eq := fun a b => !a.2 && !b.2 && a.1 == b.1
     unhashable := fun _ => false
     reflexiveKey := false, needKeyUpdate := true, hashMightPanic := false }
